@@ -1429,6 +1429,26 @@ func H_Product() {
 		return
 	}
 	rule := m.Rules[win]
+	// a @pop_mode with nothing on the mode stack is undefined by the
+	// documentation (the generated code reports an error): no expectation then.
+	// The default mode entered directly has an empty stack; a mode entered
+	// through the access prefix has at least one entry.
+	depth := 0
+	if len(prefix) > 0 {
+		depth = 1
+	}
+	for _, a := range rule.Actions {
+		if a.Push {
+			depth++
+		}
+		if a.Pop {
+			if depth == 0 {
+				vrt.Reach("pop-on-empty-stack-undefined")
+				return
+			}
+			depth--
+		}
+	}
 	switch rule.Effect {
 	case ref.EffAccept:
 		vrt.Assert(got == 1 && sm.Token() == rule.Token, "accepts-the-earliest-matching-rule")
